@@ -159,6 +159,8 @@ W_PROVED = {
     # leaves and dispatchers
     'convert_text', 'convert_space', 'convert_parbreak', 'convert_ident', 'convert_expr', 'convert_expr_impl', 'convert_pattern', 'convert_array_item', 'convert_dict_item',
     'convert_param', 'convert_destructuring_item',
+    # math
+    'convert_math',
     # function calls
     'convert_func_call', 'convert_func_call_plain', 'convert_func_call_args', 'convert_args', 'convert_arg',
 }
